@@ -6,6 +6,7 @@ import (
 	"go/token"
 	"go/types"
 	"sort"
+	"strconv"
 	"strings"
 )
 
@@ -88,6 +89,8 @@ type Fn struct {
 
 	vparams   []types.Object // receiver/params of pointer-to-state-owned type, in order
 	live      map[types.Object]bool
+	cleansed  map[string]token.Pos  // "var.field" of a shallow copy re-assigned a fresh value at this position (top level of the body)
+	shallow   map[types.Object]bool // struct values copied out of live state (and pointers to them): their slice/map/pointer fields still reference live memory
 	fresh     map[types.Object]bool // locals that only ever hold objects allocated in this function
 	envDone   bool
 	retLive   int // 0 unknown, 1 computing, 2 false, 3 true
@@ -347,9 +350,8 @@ func (w *world) variantParams(obj *types.Func) []types.Object {
 		if v == nil {
 			return
 		}
-		if _, ok := v.Type().Underlying().(*types.Pointer); !ok {
-			return
-		}
+		// pointers to state-owned structs (live / shallow copy / snapshot) and state-owned
+		// structs passed by value (shallow copy / snapshot)
 		n := w.namedStruct(v.Type())
 		if n != "" && w.owned[n] && !w.always[n] {
 			out = append(out, v)
@@ -375,16 +377,20 @@ func (w *world) getFn(obj *types.Func, mask uint) *Fn {
 	}
 	name := w.funcName(obj)
 	if mask != 0 {
-		name += fmt.Sprintf("@live%b", mask)
+		// per variant parameter: 1 live, 2 shallow copy of a live object (two bits each, printed in base 4)
+		name += "@live" + strconv.FormatUint(uint64(mask), 4)
 	}
 	if f, ok := w.fns[name]; ok {
 		return f
 	}
 	f := &Fn{id: len(w.order), name: name, obj: obj, decl: decl, mask: mask, ps: w.declPkg[obj], vparams: vp,
-		live: map[types.Object]bool{}, closures: map[types.Object]*ast.FuncLit{}, outID: -1}
+		live: map[types.Object]bool{}, shallow: map[types.Object]bool{}, closures: map[types.Object]*ast.FuncLit{}, outID: -1}
 	for i, p := range vp {
-		if mask&(1<<uint(i)) != 0 {
+		switch (mask >> (2 * uint(i))) & 3 {
+		case 1:
 			f.live[p] = true
+		case 2:
+			f.shallow[p] = true
 		}
 	}
 	w.fns[name] = f
@@ -400,7 +406,8 @@ func (w *world) getLit(parent *Fn, lit *ast.FuncLit) *Fn {
 	}
 	r := parent.root()
 	r.nlits++
-	f := &Fn{id: len(w.order), name: fmt.Sprintf("%s$%d", r.name, r.nlits), lit: lit, parent: parent, ps: parent.ps, outID: -1}
+	f := &Fn{id: len(w.order), name: fmt.Sprintf("%s$%d", r.name, r.nlits), lit: lit, parent: parent, ps: parent.ps, outID: -1,
+		shallow: map[types.Object]bool{}}
 	w.litFns[key] = f
 	w.order = append(w.order, f)
 	w.queue = append(w.queue, f)
@@ -614,6 +621,7 @@ type tr struct {
 	siteCount   map[string]int
 	inComm      bool // inside the communication of a select clause
 	confHalf    string
+	viaIndex    int                   // walking the container of an index expression
 	pubw        map[*ast.Ident]string // assignment targets that are captured variables written after publication
 }
 
@@ -769,6 +777,32 @@ func (w *world) ensureEnv(f *Fn) {
 		delete(f.fresh, o)
 	}
 	// parameters and results are never fresh
+	// struct values copied out of live state
+	markShallow := func(id *ast.Ident, rhs ast.Expr) bool {
+		if id == nil || id.Name == "_" {
+			return false
+		}
+		o := t.info.Defs[id]
+		if o == nil {
+			o = t.info.Uses[id]
+		}
+		if o == nil || f.shallow[o] {
+			return false
+		}
+		n := w.namedStruct(o.Type())
+		if _, isPtr := o.Type().Underlying().(*types.Pointer); n == "" || !w.owned[n] || w.always[n] {
+			return false
+		} else if isPtr {
+			// a pointer to a shallow copy (p := &snapshot)
+			if !t.shallow(rhs) {
+				return false
+			}
+		} else if !(t.live(rhs) || t.shallow(rhs)) {
+			return false
+		}
+		f.shallow[o] = true
+		return true
+	}
 	for changed := true; changed; {
 		changed = false
 		ast.Inspect(body, func(n ast.Node) bool {
@@ -777,6 +811,9 @@ func (w *world) ensureEnv(f *Fn) {
 				if len(s.Lhs) == len(s.Rhs) {
 					for i := range s.Lhs {
 						if id, ok := s.Lhs[i].(*ast.Ident); ok && mark(id, t.live(s.Rhs[i])) {
+							changed = true
+						}
+						if id, ok := s.Lhs[i].(*ast.Ident); ok && markShallow(id, s.Rhs[i]) {
 							changed = true
 						}
 					}
@@ -794,6 +831,9 @@ func (w *world) ensureEnv(f *Fn) {
 						if mark(s.Names[i], t.live(s.Values[i])) {
 							changed = true
 						}
+						if markShallow(s.Names[i], s.Values[i]) {
+							changed = true
+						}
 					}
 				}
 			case *ast.RangeStmt:
@@ -803,6 +843,33 @@ func (w *world) ensureEnv(f *Fn) {
 			}
 			return true
 		})
+	}
+}
+
+// cleansing: `v.f = <fresh value>` as a statement of the function body itself (not nested in
+// a branch or loop) gives the field f of the shallow copy v a backing store of its own from
+// that position on.
+func (w *world) computeCleansed(f *Fn, t *tr) {
+	f.cleansed = map[string]token.Pos{}
+	for _, st := range t.bodyOf().List {
+		as, ok := st.(*ast.AssignStmt)
+		if !ok || len(as.Lhs) != len(as.Rhs) {
+			continue
+		}
+		for i, l := range as.Lhs {
+			sel, ok := unparen(l).(*ast.SelectorExpr)
+			if !ok {
+				continue
+			}
+			id, ok := unparen(sel.X).(*ast.Ident)
+			if !ok || !t.shallow(id) || t.live(as.Rhs[i]) || t.shallow(as.Rhs[i]) {
+				continue
+			}
+			key := id.Name + "." + sel.Sel.Name
+			if _, dup := f.cleansed[key]; !dup {
+				f.cleansed[key] = as.End()
+			}
+		}
 	}
 }
 
@@ -827,7 +894,11 @@ func (t *tr) live(e ast.Expr) bool {
 		return o != nil && t.fn.root().live[o]
 	case *ast.SelectorExpr:
 		if sel := t.info.Selections[e]; sel != nil && sel.Kind() == types.FieldVal {
-			return t.live(e.X)
+			if t.live(e.X) {
+				return true
+			}
+			// a slice/map/pointer field of a shallow copy still references live memory
+			return t.shallow(e.X) && refLike(sel.Obj().Type())
 		}
 	case *ast.IndexExpr:
 		return t.live(e.X)
@@ -845,6 +916,56 @@ func (t *tr) live(e ast.Expr) bool {
 		if callee, recv := t.staticCallee(e); callee != nil && t.w.ours(callee.Pkg()) {
 			if f := t.w.getFn(callee, t.maskFor(callee, recv, e.Args)); f != nil {
 				return t.w.returnsLive(f)
+			}
+		}
+	}
+	return false
+}
+
+// hasRefs: does a value of this type carry slices, maps or pointers (memory shared with the
+// object it was copied from)?
+func hasRefs(ty types.Type, depth int) bool {
+	if depth > 4 {
+		return true
+	}
+	switch u := ty.Underlying().(type) {
+	case *types.Pointer, *types.Slice, *types.Map:
+		return true
+	case *types.Struct:
+		for i := 0; i < u.NumFields(); i++ {
+			if hasRefs(u.Field(i).Type(), depth+1) {
+				return true
+			}
+		}
+	case *types.Array:
+		return hasRefs(u.Elem(), depth+1)
+	}
+	return false
+}
+
+// shallow: does the expression denote (a pointer to, or a struct-valued part of) a struct VALUE
+// that was copied out of live state?  Such a copy owns its scalar fields, but its slice, map
+// and pointer fields still reference the tracked memory.
+func (t *tr) shallow(e ast.Expr) bool {
+	e = unparen(e)
+	switch e := e.(type) {
+	case *ast.Ident:
+		o := t.info.Uses[e]
+		if o == nil {
+			o = t.info.Defs[e]
+		}
+		return o != nil && t.fn.root().shallow[o]
+	case *ast.StarExpr:
+		return t.shallow(e.X)
+	case *ast.UnaryExpr:
+		if e.Op == token.AND {
+			return t.shallow(e.X)
+		}
+	case *ast.SelectorExpr:
+		if sel := t.info.Selections[e]; sel != nil && sel.Kind() == types.FieldVal && t.shallow(e.X) {
+			// a struct-valued field of a shallow copy is a shallow copy again
+			if _, ok := sel.Obj().Type().Underlying().(*types.Struct); ok {
+				return hasRefs(sel.Obj().Type(), 0)
 			}
 		}
 	}
@@ -936,8 +1057,16 @@ func (t *tr) maskFor(callee *types.Func, recv ast.Expr, args []ast.Expr) uint {
 				}
 			}
 		}
-		if arg != nil && t.live(arg) {
-			mask |= 1 << uint(i)
+		if arg == nil {
+			continue
+		}
+		_, isPtr := p.Type().Underlying().(*types.Pointer)
+		switch {
+		case t.live(arg) && isPtr:
+			mask |= 1 << (2 * uint(i))
+		case t.live(arg) || t.shallow(arg):
+			// a struct passed by value out of live state, or (a pointer to) a shallow copy
+			mask |= 2 << (2 * uint(i))
 		}
 	}
 	return mask
@@ -1323,7 +1452,9 @@ func (t *tr) expr(e ast.Expr, wr bool, out *[]*Node) {
 		t.selector(e, wr, out)
 	case *ast.IndexExpr:
 		t.expr(e.Index, false, out)
+		t.viaIndex++
 		t.expr(e.X, wr, out)
+		t.viaIndex--
 	case *ast.SliceExpr:
 		t.expr(e.Low, false, out)
 		t.expr(e.High, false, out)
@@ -1460,6 +1591,29 @@ func (t *tr) access(e *ast.SelectorExpr, field *types.Var, wr bool, out *[]*Node
 		return
 	}
 	if t.w.owned[owner] && !t.w.always[owner] && !t.live(e.X) {
+		// a slice or map field of a struct value copied out of live state still points at the
+		// tracked backing store: using it is a live access (overwriting the copy's own header is not)
+		_, isSlice := field.Type().Underlying().(*types.Slice)
+		_, isMap := field.Type().Underlying().(*types.Map)
+		cleansed := false
+		if id, ok := unparen(e.X).(*ast.Ident); ok {
+			r := t.fn.root()
+			if r.cleansed == nil {
+				t.w.computeCleansed(r, &tr{w: t.w, fn: r, info: r.ps.info})
+			}
+			if p, ok := r.cleansed[id.Name+"."+field.Name()]; ok && p <= e.Pos() {
+				cleansed = true
+			}
+		}
+		if t.shallow(e.X) && (isSlice || isMap) && !(wr && t.viaIndex == 0) && !cleansed {
+			t.setSeen(e.Sel.Pos(), "access")
+			k := KRd
+			if wr {
+				k = KWr
+			}
+			*out = append(*out, &Node{K: k, L: t.w.loc(t.locName(owner, field.Name()), mu), Note: exprString(e) + " (shallow copy of a live object)"})
+			return
+		}
 		t.setSeen(e.Sel.Pos(), "snapshot")
 		return
 	}
